@@ -20,7 +20,7 @@ MUTANTS = [
     ("C01-mod-urem", "C01", ["C01"], "src/compiler/compiler.go", "c.latestReturn = c.cbb.NewSRem(c.floatOrByteAsInt(lhs, lhsTyp), c.floatOrByteAsInt(rhs, rhsTyp))", "c.latestReturn = c.cbb.NewURem(c.floatOrByteAsInt(lhs, lhsTyp), c.floatOrByteAsInt(rhs, rhsTyp))"),
     ("C02-drop-byte-logic-widen", "C02", ["C02"], "src/compiler/compiler.go", "if lhsTyp != c.ddpbytetyp || rhsTyp != c.ddpbytetyp {", "if lhsTyp != c.ddpbytetyp && rhsTyp != c.ddpbytetyp {"),
     ("C03-no-arity-guard", "C03", ["C03"], "src/parser/typechecker/typechecker.go", "if len(overload.Parameters) != len(operands) {", "if false && len(overload.Parameters) != len(operands) {"),
-    ("C04-const-assign", "C04", ["C04"], "src/parser/resolver/resolver.go", "} else if _, isConst := varDecl.(*ast.ConstDecl); isConst {\n\t\t\tr.err(ddperror.SEM_BAD_NAME_CONTEXT, assign.Token().Range,", "} else if _, isConst := varDecl.(*ast.ConstDecl); isConst && false {\n\t\t\tr.err(ddperror.SEM_BAD_NAME_CONTEXT, assign.Token().Range,"),
+    ("C04-const-assign", "C04", ["C04", "C03"], "src/parser/resolver/resolver.go", "} else if _, isConst := varDecl.(*ast.ConstDecl); isConst {\n\t\t\tr.err(ddperror.SEM_BAD_NAME_CONTEXT, assign.Token().Range,", "} else if _, isConst := varDecl.(*ast.ConstDecl); isConst && false {\n\t\t\tr.err(ddperror.SEM_BAD_NAME_CONTEXT, assign.Token().Range,"),
     ("C05-continue-frees-loop-scope", "C05", ["C05", "C01"], "src/compiler/compiler.go", "for scp := c.scp; scp != c.curLoopScope; scp = c.exitScope(scp) {", "for scp := c.scp; scp != c.curLoopScope.enclosing; scp = c.exitScope(scp) {"),
     ("C05-assign-no-free", "C05", ["C05"], "src/compiler/compiler.go", "\t\tc.freeNonPrimitive(lhs, lhsTyp) // free the old value in the variable/list\n", "\n"),
     ("C06-index-sge-sgt", "C06", ["C06"], "src/compiler/compiler.go", "cond := c.cbb.NewAnd(c.cbb.NewICmp(enum.IPredSLT, index, listLen), c.cbb.NewICmp(enum.IPredSGE, index, zero))", "cond := c.cbb.NewAnd(c.cbb.NewICmp(enum.IPredSLE, index, listLen), c.cbb.NewICmp(enum.IPredSGE, index, zero))"),
